@@ -117,15 +117,17 @@ def gen_history(rng, length):
     last = [rng.choice(["a2", "v2", "a3", "v1"]) for _ in range(2)]
     pl2 = None if auto else rng.choice([16384, 32768])
     hist += [
+        # (a long-lived creator object only with an explicit piece length: the automatic choice
+        # is made once, when the object is constructed, and belongs to the object)
         {"op": "create", "kind": last[0], "path": "p", "out": f"e{counter}a.torrent", "pl": pl2,
-         "reuse": f"E{counter}"},
+         "reuse": f"E{counter}" if pl2 else None},
         {"op": "recheck", "meta": f"e{counter}a.torrent", "content": "p", "reuse": True},
         {"op": "rebuild", "metas": [f"e{counter}a.torrent"], "contents": ["p"], "dest": f"edest{counter}a"},
         {"op": "fs", "kind": "rewrite-same-size", "rel": sorted(present)[0], "seed": counter + 77},
         {"op": "fs", "kind": "add", "rel": f"p/late/arrival{counter}", "data": f"r{counter}.20000"},
         {"op": "recheck", "meta": f"e{counter}a.torrent", "content": "p", "reuse": True},
         {"op": "create", "kind": last[0], "path": "p", "out": f"e{counter}b.torrent", "pl": pl2,
-         "reuse": f"E{counter}"},
+         "reuse": f"E{counter}" if pl2 else None},
         {"op": "rebuild", "metas": [f"e{counter}b.torrent"], "contents": ["p"], "dest": f"edest{counter}b"},
         {"op": "recheck", "meta": f"e{counter}b.torrent", "content": f"edest{counter}b"},
         {"op": "edit", "cli": True, "flags": [], "meta": f"e{counter}a.torrent",
